@@ -33,6 +33,10 @@ pub struct Block {
     pub default: Option<(u8, DefaultValues)>,
     pub arms: Vec<Arm>,
     pub trailing_comma: bool,
+    /// how state names are written in the macro: 0 = `St::S1`, 1 = bare `S1` (with `use St::*` in
+    /// scope), 2 = `crate::St::S1`
+    #[serde(default)]
+    pub state_spelling: u8,
 }
 
 #[derive(Clone, Debug, Serialize, Deserialize)]
@@ -86,7 +90,7 @@ fn block_strategy() -> impl Strategy<Value = Block> {
         }
         arms
     });
-    (default, arms, any::<bool>()).prop_map(|(default, arms, trailing_comma)| Block { default, arms, trailing_comma })
+    (default, arms, any::<bool>(), prop_oneof![4 => Just(0u8), 1 => Just(1u8), 1 => Just(2u8)]).prop_map(|(default, arms, trailing_comma, state_spelling)| Block { default, arms, trailing_comma, state_spelling })
 }
 
 fn ops_strategy() -> impl Strategy<Value = Vec<AOp>> {
@@ -129,18 +133,24 @@ fn vals_expr(v: &Vals) -> String {
 fn print_macro(b: &Block, idx: usize) -> String {
     let mut parts = vec![];
     let mut head = String::new();
+    let sp = |s: &u8| match b.state_spelling % 3 {
+        1 => format!("S{s}"),
+        2 => format!("crate::St::S{s}"),
+        _ => format!("St::S{s}"),
+    };
     if let Some((s, dv)) = &b.default {
         head = match dv {
-            DefaultValues::None => format!("default(St::S{s}), "),
-            DefaultValues::Inline(f) => format!("default(St::S{s}, {{ {} }}), ", f.iter().map(|(p, v)| format!("{}: {}", PROP_NAMES[*p], crate::c15::field_text(*p, *v))).collect::<Vec<_>>().join(", ")),
-            DefaultValues::Expr(_) => format!("default(St::S{s}, DV_{idx}), "),
+            DefaultValues::None => format!("default({}), ", sp(s)),
+            DefaultValues::Inline(f) => format!("default({}, {{ {} }}), ", sp(s), f.iter().map(|(p, v)| format!("{}: {}", PROP_NAMES[*p], crate::c15::field_text(*p, *v))).collect::<Vec<_>>().join(", ")),
+            DefaultValues::Expr(_) => format!("default({}, DV_{idx}), ", sp(s)),
         };
     }
     for arm in &b.arms {
-        let st = arm.states.iter().map(|s| format!("St::S{s}")).collect::<Vec<_>>().join(" | ");
+        let st = arm.states.iter().map(|s| sp(s)).collect::<Vec<_>>().join(" | ");
         parts.push(format!("{st} => {}", print_behavior(&arm.behavior, arm.bracket_single)));
     }
-    format!("animator!(Q {{ {head}{}{} }})", parts.join(", "), if b.trailing_comma && !parts.is_empty() { "," } else { "" })
+    let prefix = if b.state_spelling % 3 == 1 { "use St::*; " } else { "" };
+    format!("{prefix}animator!(Q {{ {head}{}{} }})", parts.join(", "), if b.trailing_comma && !parts.is_empty() { "," } else { "" })
 }
 
 fn print_tl_builder(d: &TlDesc) -> String {
